@@ -96,6 +96,12 @@ var c05Atoms = []c05Atom{
 	{"missing-method-on-value", `vst.Nope()`, "mustfail"},
 	{"missing-method-with-args", `pst.Nope(1, "x")`, "mustfail"},
 	{"partial-with-unknown-ident", `partial("pnope")`, "mustfail"},
+	{"partial-with-layout-failing-body", `partial("pfail", {"layout": "lay"})`, "sentinel"},
+	{"partial-with-layout-unknown-ident-in-body", `partial("pnope", {"layout": "lay"})`, "mustfail"},
+	{"partial-with-failing-layout", `partial("pok", {"layout": "layfail"})`, "sentinel"},
+	{"partial-with-layout-unknown-ident-in-layout", `partial("pok", {"layout": "laynope"})`, "mustfail"},
+	{"partial-failing-body-no-layout", `partial("pfail")`, "sentinel"},
+	{"nested-partial-with-layout-failing-body", `partial("pnest", {"layout": "lay"})`, "sentinel"},
 	{"render-with-unknown-ident", `rnd("<%= nope %>")`, "mustfail"},
 }
 
@@ -286,7 +292,7 @@ func c05One(t *engine.T, wi, wj int, st c05Stmt, exprs []*c05Expr, at c05Atom) {
 		return c05Prelude + "A" + inner + "B"
 	}
 	t.Case(desc, true, func() (string, *engine.Fail) {
-		e := &c05Env{partials: map[string]string{"pw": "[<%= w %>]", "pnope": "<%= nope %>"}}
+		e := &c05Env{partials: map[string]string{"pw": "[<%= w %>]", "pnope": "<%= nope %>", "pfail": "a<%= fail() %>b", "pok": "ok", "lay": "<l><%= yield %></l>", "layfail": "<l><%= fail() %><%= yield %></l>", "laynope": "<l><%= yield %><%= nope %></l>", "pnest": `<%= partial("pfail", {"layout": "lay"}) %>`}}
 		src := build(e)
 		ctx := e.context()
 		ctx.Set("ident2", func(a string, v interface{}) interface{} { return v })
